@@ -31,7 +31,7 @@ C08.selectDefault_spec C08.priorityEncoder_inc_spec C08.priorityEncoder_dec_spec
 C08.swap_spec
 C08.equal_spec C08.equalConstant_spec C08.equalConstant_wrap C08.notEqualConstant_spec C08.anyEqual_spec C08.comparator_spec
 C08.comparatorSU_spec C08.max2_spec C08.min2_spec C08.signedMax2_spec C08.signedMin2_spec
-C08.xor2_val C08.xor2_wide_fixed C08.equalConstant_out_of_range_counterexample C08.priorityEncoder_docstring_counterexample
+C08.xor2_val C08.xor2_wide_fixed C08.norN_wide_fixed C08.nor2_wide_fixed C08.equalConstant_out_of_range_counterexample C08.priorityEncoder_docstring_counterexample
 """
 
 
@@ -45,6 +45,18 @@ PROPOSED_FINDINGS = [
      "witness": {"block": "Xor2", "aw": 8, "bw": 10, "rw": 9, "a": 122, "b": 1, "r_before_fix": 379, "r": 123},
      "what": "Xor2 (and Xor) with a result wire wider than operand a: the internal NAND wires had the width of a, so the upper "
              "result bits read 1 instead of a ^ b"},
+    {"id": "C08-nor-wide", "property": "C08", "status": "fixed", "fixed_by": "99fa1f2", "anchor": "py4hw/logic/bitwise.py:450",
+     "class_expr": "r.get('block_kind') == 'Nor' and r['lean_params'][0] > r['lean_params'][1] and "
+                   "max(r['inputs']) >= 2 ** r['lean_params'][1]",
+     "witness": {"block": "Nor", "input_widths": [6, 7, 8, 4], "rw": 8, "inputs": [41, 54, 127, 1], "r_before_fix": 192, "r": 128},
+     "what": "Nor with a result wire and later inputs wider than the first input: Mid had the width of ins[0], so the upper bits "
+             "of the other inputs were dropped before the Not"},
+    {"id": "C08-nor2-wide", "property": "C08", "status": "fixed", "fixed_by": "aa5aa9b", "anchor": "py4hw/logic/bitwise.py:483",
+     "class_expr": "r.get('block_kind') == 'Nor2' and r['lean_params'][1] > r['lean_params'][0] and "
+                   "r['inputs'][1] >= 2 ** r['lean_params'][0]",
+     "witness": {"block": "Nor2", "aw": 2, "bw": 4, "rw": 4, "a": 0, "b": 12, "r_before_fix": 15, "r": 3},
+     "what": "Nor2 with b and r wider than a: Mid had the width of a, the upper bits of b were dropped before the Not "
+             "(Nor2(a:2 bits=0, b:4 bits=12, r:4 bits) = 15, not ~(a|b) = 3)"},
     {"id": "C08-priorityencoder-docstring", "property": "C08", "status": "fixed", "fixed_by": "26c0ec8",
      "anchor": "py4hw/logic/bitwise.py:1439", "class_expr": "r.get('block_kind') == 'PriorityEncoder-docstring'",
      "witness": {"a": [1, 1], "inc_priority": True, "r": [0, 1]},
@@ -124,10 +136,11 @@ SPEC = {
     'Or': (lambda P, X: True, lambda P, X: [_bitfn(P[0], lambda i: any(tb(x, i) for x in X))]),
     'Xor': (lambda P, X: all(x <= M(w) for w, x in zip(P[1:], X)),          # every width mix (since /repo 4cfd4ac)
             lambda P, X: [_bitfn(P[0], lambda i: sum(tb(x, i) for x in X) % 2 == 1)]),
-    'Nor': (lambda P, X: P[0] <= P[1] or all(x <= M(P[1]) for x in X),
+    'Nor': (lambda P, X: True,                                               # every width mix (since /repo 99fa1f2)
             lambda P, X: [_bitfn(P[0], lambda i: not any(tb(x, i) for x in X))]),
     'Nand2': (lambda P, X: P[1] <= P[0] or X[0] <= M(P[0]), lambda P, X: [~(X[0] & X[1]) & M(P[1])]),
-    'Nor2': (lambda P, X: P[1] <= P[0] or all(x <= M(P[0]) for x in X), lambda P, X: [~(X[0] | X[1]) & M(P[1])]),
+    'Nor2': (lambda P, X: True,                                              # every width mix (since /repo aa5aa9b)
+             lambda P, X: [~(X[0] | X[1]) & M(P[1])]),
     'Xor2': (lambda P, X: X[0] <= M(P[0]) and X[1] <= M(P[1]), lambda P, X: [(X[0] ^ X[1]) & M(P[2])]),   # every width mix
     'Bit': (lambda P, X: P[0] >= 1, lambda P, X: [tb(X[0], P[1])]),
     'Range': (lambda P, X: True, lambda P, X: [_bitfn(P[0], lambda i: i <= P[1] - P[2] and tb(X[0], P[2] + i))]),
@@ -753,7 +766,12 @@ def main(res, tier, rng, replay):
                      (mk('Xor2', aw=2, bw=2, rw=4), [[1, 3], [0, 0], [3, 3], [2, 1]]),
                      (mk('Xor', rw=9, ws=[8, 10, 3]), [[122, 1, 0], [255, 1023, 7], [0, 0, 0], [1, 512, 4]]),
                      (mk('Xor', rw=4, ws=[2, 2]), [[1, 3], [0, 0], [3, 3]]),
+                     (mk('Nor', rw=8, ws=[6, 7, 8, 4]), [[41, 54, 127, 1], [0, 0, 0, 0], [63, 127, 255, 15], [0, 64, 128, 0]]),
+                     (mk('Nor', rw=4, ws=[2, 4]), [[0, 12], [3, 0], [1, 8]]),
+                     (mk('Nor2', aw=2, bw=4, rw=4), [[0, 12], [3, 3], [0, 0], [1, 8]]),  # former witness of C08-nor2-wide
+                     (mk('Nor2', aw=3, bw=8, rw=6), [[5, 200], [0, 255], [7, 0]]),
                      (mk('Equal', aw=3, bw=5, rw=1), [[5, 5], [5, 4], [0, 0], [7, 7]]),
+                     (mk('Equal', aw=4, bw=4, rw=2), [[5, 5], [5, 4]]),
                      (mk('AnyEqual', rw=1, ws=[4, 4, 4]), [[9, 3, 9], [1, 2, 3], [0, 0, 0]])):
         b.add(rc, 'x', vecs)
     n_rand = 320 if tier == "quick" else 3000
